@@ -1,6 +1,7 @@
 """C01 - every emitted line is a well-formed, faithful DogStatsD metric line (grammar skeleton)."""
 from . import fmtout as F
 from . import client as K
+from .common import KeepOnly
 
 EXPLANATION = ('Grammar skeleton decided on MIR: R1/R2 the formatter\'s output events (decoded format_args templates, '
                'push_str/push) are accepted by an NFA of the line grammar on every CFG path, each optional section is '
@@ -30,3 +31,5 @@ def check(ctx, rep):
     # (class and lossless flow of every To*Value impl; Duration units and the narrowing guard stay with C02)
     from . import values as V
     V.rule_flow(ctx, rep, 'R12')
+    # "the text handed to the sink is exactly ...": the client hands the formatted line to the sink unaltered
+    K.rule_send_metric(fm, KeepOnly(rep, ('/emits-the-metric-text',), 'R13'))
